@@ -132,7 +132,7 @@ pub struct Fq;
 fn fa_err(e: fasta::Error) -> (ErrObs, String) {
     let msg = e.to_string();
     let o = match e {
-        fasta::Error::Io(e) => ErrObs::Io(kind_name(e.kind())),
+        fasta::Error::Io(e) => ErrObs::Io(crate::scn::io_label(&e)),
         fasta::Error::InvalidStart { line, found } => ErrObs::InvalidStart {
             line: line as u64,
             found,
@@ -146,7 +146,7 @@ fn fa_err(e: fasta::Error) -> (ErrObs, String) {
 fn fq_err(e: fastq::Error) -> (ErrObs, String) {
     let msg = e.to_string();
     let o = match e {
-        fastq::Error::Io(e) => ErrObs::Io(kind_name(e.kind())),
+        fastq::Error::Io(e) => ErrObs::Io(crate::scn::io_label(&e)),
         fastq::Error::InvalidStart { found, pos } => ErrObs::InvalidStart {
             line: pos.line,
             found,
@@ -621,8 +621,9 @@ fn classify_panic(msg: String) -> Out {
 }
 
 fn drive_api<A: Api>(scn: &ReadScn, cfg: &Cfg, targets: &SeekTargets) -> RunLog {
-    let budget = 64 * (scn.input.len() as u64 + cfg.cap as u64) + 4096;
+    let budget = 64 * (scn.input.len() as u64 + cfg.cap as u64) + 4096 + 2 * cfg.intr_burst.map(|b| b.1 as u64).unwrap_or(0);
     let seam = new_seam(budget);
+    seam.borrow_mut().growth_limit = 8 * (scn.input.len() + cfg.cap);
     let data = Rc::new(scn.input.clone());
     let src = SimSource::new(data.clone(), cfg, seam.clone());
     let pol = SimPolicy::new(cfg.policy.clone(), seam.clone());
